@@ -21,6 +21,10 @@ CHECKS = {
    technique="explicit-state search over operation histories with the full read API compared against the reference model after every single operation inside the write transaction",
    text="Same histories as C01 in probing mode: after each put/delete/bucket operation inside the open write transaction, point gets of every key of the universe, cursor scan, bucket and pair listings, seek to every key and a menu of ranges are compared with the model.",
    note="Trusted: refmodel. Probing changes the overlay's bookkeeping, so this is a different exploration from C01."),
+ "C08": dict(engine="enumx", cat="exploration", ref="DESIGN.md §2 C08",
+   technique="bounded-exhaustive enumeration of all seek keys and all bound pairs of every kind over a catalogue of tree shapes (committed and mid-transaction), executed on the real library against the reference filter",
+   text="For each bucket shape (empty, single leaf, two and three levels, every deletion subset of the two-level base, nested buckets; each committed and inside an open write transaction) every probe key (each key, both gaps next to it, below, above, empty) is used for get, seek+iterate and as lower/upper bound of every kind in all combinations, also through the bucket-only and pair-only iterators, plus next() after exhaustion.",
+   note="Trusted: refmodel filter. The shape catalogue and probe construction bound the input space; within it nothing is sampled."),
 }
 
 NA = {}
@@ -57,6 +61,7 @@ def main():
             "add_only": True,
         },
         "engines": [
+            {"name": "enumx", "path": "mc/src/enumx.rs", "serves_properties": ["C08"], "kind_free_text": "bounded-exhaustive input enumeration (seek keys x bound kinds x shapes) on the real read API"},
             {"name": "seqx", "path": "mc/src/seqx.rs", "serves_properties": ["C01", "C03", "C05", "C06", "C07", "C10"], "kind_free_text": "explicit-state BFS over histories of whole transactions executed on the real library in worker processes; state = history, key = structural digest of file + shared in-memory bookkeeping"},
         ],
         "checks": checks,
